@@ -15,7 +15,7 @@ GUserIds == {1004}
 GCoords == {"c"}
 GRectSeqs == {<<>>}
 
-UpdKinds == { [t |-> "Bitmap", n |-> k] : k \in 0..3 } \cup { [t |-> "Other", code |-> c] : c \in {0, 3, 5, 7, 9} }
+UpdKinds == { [t |-> "Bitmap", n |-> k] : k \in 0..3 } \cup { [t |-> "Other", code |-> c] : c \in {0, 3, 5, 7, 9, 13, 15} }
 Shapes == UNION { [1..n -> UpdKinds] : n \in 0..MaxUpd }
 
 \* rectangles are opaque tokens <<update index, rect index>> in the model
